@@ -22,7 +22,7 @@ BufFault g_buf;
 LexScript g_script;
 long g_bounds_hits = 0;
 std::vector<FrameBase*>& registry() { static std::vector<FrameBase*> r; return r; }
-namespace eg { std::string& frame_ctor_failure() { static std::string s; return s; } }
+std::string& frame_ctor_failure() { static std::string s; return s; }
 }
 namespace ctpg_verif {
 void bounds_violation(const char* what, std::size_t idx, std::size_t cap) { eg::g_bounds_hits++; throw eg::BoundsHit{what, idx, cap}; }
@@ -1013,9 +1013,9 @@ int main(int argc, char** argv) {
         else if (a == "--list-frames") { for (auto* f : registry()) std::printf("%s size=%zu\n", f->name.c_str(), f->object_size()); return 0; }
         else { std::fprintf(stderr, "unknown argument %s\n", a.c_str()); return 2; }
     }
-    if (!eg::frame_ctor_failure().empty()) {   // the library could not construct a parser for a well-formed grammar (char terms a..n, bytes 0x80.., nonterminals N0..)
-        if (!cfg.out.empty()) { std::ofstream o(cfg.out + ".crash"); o << jw::Obj().i("signal", -1).s("phase", "frame-construction: " + eg::frame_ctor_failure()).s("frame", "").s("gram", "(the frame's own well-formed grammar)").s("spec", "").i("nt", 0).i("t", 0).s("prec", "").s("rprec", "").s("input", "").str() << "\n"; }
-        std::fprintf(stderr, "construction of a well-formed parser threw: %s\n", eg::frame_ctor_failure().c_str());
+    if (!frame_ctor_failure().empty()) {   // the library could not construct a parser for a well-formed grammar (char terms a..n, bytes 0x80.., nonterminals N0..)
+        if (!cfg.out.empty()) { std::ofstream o(cfg.out + ".crash"); o << jw::Obj().i("signal", -1).s("phase", "frame-construction: " + frame_ctor_failure()).s("frame", "").s("gram", "(the frame's own well-formed grammar)").s("spec", "").i("nt", 0).i("t", 0).s("prec", "").s("rprec", "").s("input", "").str() << "\n"; }
+        std::fprintf(stderr, "construction of a well-formed parser threw: %s\n", frame_ctor_failure().c_str());
         _exit(3);
     }
     std::signal(SIGSEGV, crash_handler); std::signal(SIGABRT, crash_handler); std::signal(SIGBUS, crash_handler); std::signal(SIGFPE, crash_handler);
